@@ -94,7 +94,7 @@ def sweep(o, ost, kids, rnd, n_grid):
     ws.update(round(top * i / n_grid, 2) for i in range(n_grid))
     ws = sorted(w for w in ws if w >= 0)
     if kids == "young":       # childless and under 23: no childless surcharge in long-term care insurance
-        rows = [dict(person(year, w, ost, ges_pflegev_hat_kinder=False, alter=22, geburtsjahr=year - 22), p_id=i, hh_id=i) for i, w in enumerate(ws)]
+        rows = [dict(person(year, w, ost, ges_pflegev_hat_kinder=False, alter=20, geburtsjahr=year - 20), p_id=i, hh_id=i) for i, w in enumerate(ws)]
     else:
         rows = [dict(person(year, w, ost, ges_pflegev_hat_kinder=bool(kids)), p_id=i, hh_id=i) for i, w in enumerate(ws)]
     df = popgen.to_frame(rows)
@@ -139,6 +139,20 @@ def model_chain(o, ost, tgt, ws):
     return r[0]
 
 
+def model_F(o, cfg, tgts, ws):
+    """ChkC19Aff.F (the function C19_all_wages is about) of each target on the wages ws, for the configuration cfg = (east, children, age)"""
+    from fractions import Fraction
+
+    items = "; ".join(C.cq(Fraction(repr(w))) for w in ws)
+    ost, kids, age = cfg
+    tl = "; ".join(f'"{t}"' for t in tgts)
+    expr = (f"json_val (VList (match find (fun od => Z.eqb (fst od) {o}) dags, PA {o} with | Some od, Ok p => map (fun t => VList (map (fun w => "
+            f"match F (snd od) all_fundefs p (base_inputs ({'true' if ost else 'false'}, {kids}, {age})%Z) wage_name t w with Some y => VFloat (XFin y) | None => VStr \"err\" end) "
+            f"[{items}])) [{tl}] | _, _ => [] end))")
+    r, _ = M.eval_json(f"U7F_{o}_{int(ost)}_{kids}_{age}", PRELUDE + "From GettsimModel Require Import Corr.\n", [expr], timeout=900, workdir=C.WORK / "u7")
+    return r[0]
+
+
 def run(ctx, res):
     impl.setup()
     out = coqrun.prove("C19", PRELUDE + "Open Scope Z_scope.\n", obligations(), shards=12, timeout=1500)
@@ -150,7 +164,7 @@ def run(ctx, res):
     directed = [int(next(t for t in ob["name"].split("_") if t.isdigit())) for ob in out if not ob["ok"]]
     for o in sorted(set(directed[:4] + dates)):
         for ost in (False, True):
-            for kids in ((True, False, 5, "young") if ctx.tier == "quick" else (True, False, 2, 4, 5, 6, "young")):
+            for kids in ((True, False, 4, "young") if ctx.tier == "quick" else (True, False, 1, 2, 4, 5, 6, "young")):
                 try:
                     ws, df, bnd = sweep(o, ost, kids, rnd, 120 if ctx.tier == "quick" else 600)
                     tg = [t for trip in ALL_BRANCHES.values() for t in trip if t in metam.dag_for(o)["nodes"]] + ["in_gleitzone"]
@@ -186,6 +200,25 @@ def run(ctx, res):
                                 res.add_violation(f"u7:{tgt}", f"model chain and implementation differ for {tgt} on {impl.iso(o)} at wage {w}: implementation {col[w]}, model {M.show(m)}",
                                                   dict(kind="u7", date=impl.iso(o), wage=w, implementation=col[w], model=M.show(m)), False)
                                 break
+                # the function of the all-wages theorem == implementation, all four insurances, for the configurations the sweep realises
+                cfg = {False: (ost, 0, 35), "young": (ost, 0, 20), 1: (ost, 1, 35), 2: (ost, 2, 35), 4: (ost, 4, 35), 6: (ost, 6, 35)}.get(kids if not isinstance(kids, bool) or kids is False else None)
+                if cfg is not None and (ctx.tier == "thorough" or o in (impl.ordinal("2024-01-01"), impl.ordinal("2019-01-01"))):
+                    tg4 = [trip[0] for trip in ALL_BRANCHES.values() if trip[0] in outp.columns]
+                    sub = ws[:: max(1, len(ws) // 40)]
+                    try:
+                        mv = model_F(o, cfg, tg4, sub)
+                    except Exception as ex:  # noqa: BLE001
+                        res.machinery_errors.append(f"model_F {impl.iso(o)} {cfg}: {type(ex).__name__}: {str(ex)[:200]}")
+                        mv = []
+                    for tgt, vals in zip(tg4, mv):
+                        col = dict(zip(ws, [float(v) for v in outp[tgt]]))
+                        for w, m in zip(sub, vals):
+                            stats["model_points"] += 1
+                            if not (isinstance(m, tuple) and M.close(col[w], m[1])):
+                                res.add_violation(f"u7f:{tgt}", f"the function of C19_all_wages and the implementation differ for {tgt} on {impl.iso(o)} "
+                                                  f"({'east' if ost else 'west'}, children {cfg[1]}, age {cfg[2]}) at wage {w}: implementation {col[w]}, model {M.show(m)}",
+                                                  dict(kind="u7f", date=impl.iso(o), wage=w, config=list(cfg), implementation=col[w], model=M.show(m)), False)
+                                break
                 if len(res.samples) < 3:
                     res.samples.append(dict(unit="wage sweep", date=impl.iso(o), east=ost, wages=len(ws), boundaries=bnd))
     for ob in out:
@@ -195,11 +228,11 @@ def run(ctx, res):
     res.evaluations += stats["points"] + stats["model_points"] + stats["share_checks"]
     res.distinct += stats["sweeps"]
     res.extra["engine"] = stats
-    res.rule = ("wage sweeps through the real engine (single-person households; east/west; with/without children in thorough): a dense lattice up to 1.2x the "
+    res.rule = ("wage sweeps through the real engine (single-person households; east/west; with children, childless, four children, childless under 23): a dense lattice up to 1.2x the "
                 "highest ceiling plus every statutory boundary (marginal-employment threshold, transition-zone boundary, both ceilings) -1, -0.01, 0, "
                 "+0.01, +1: employee contributions of all four branches must be non-negative, zero up to the marginal threshold, non-decreasing, "
                 "constant above the ceiling, without a jump at the zone's upper boundary; employee + employer = total inside the zone; the model's scalar "
-                "chain (pension, unemployment) is compared with the implementation on 60 sweep points. distinct = sweeps.")
+                "chain (pension, unemployment) is compared with the implementation on 60 sweep points, and the function F of C19_all_wages (ChkC19Aff) with the implementation for all four insurances on 40 sweep points per configuration the sweeps realise (childless 35 / 20 years, 4 children; east / west). distinct = sweeps.")
 
 
 def replay(payload):
